@@ -209,3 +209,41 @@ Proof.
   exists ex_late. split; [exact Logic.I|]. split; [reflexivity|]. split; [vm_compute; reflexivity|].
   intro H. apply (f_equal (map Qred)) in H. vm_compute in H. discriminate.
 Qed.
+
+(* ------------------------------------------------------------------ select(timerange=) *)
+
+(* dataset.py:771-772  _time_keep &= sensor.timestamps[:] >= start;  &= sensor.timestamps[:] <= end  with
+   start = v[0] + dump / 2, end = v[1] - dump / 2 (Model/Select.v, timerange_mask, on the integer dump times of the
+   observation).  When those integer times ARE the sensor cache's times (unit u after t0), the dumps kept by a
+   timerange criterion are exactly those whose DATA SET timestamp lies in [start, end]. *)
+Definition obs_times_ok (c : cfg) (t0 u : Q) : Prop :=
+  Forall2 (fun d t => (t == t0 + inject_Z (Select.d_ts d) * u)%Q) (Select.o_dumps (c_obs c)) (cache_ts c).
+
+Lemma scaled_le (t0 u : Q) (a z : Z) : (0 < u)%Q -> (a <= z <-> (t0 + inject_Z a * u <= t0 + inject_Z z * u)%Q).
+Proof.
+  intro Hu. rewrite Qplus_le_r, Qmult_le_r by exact Hu. rewrite Zle_Qle. reflexivity.
+Qed.
+
+Lemma timerange_on_timestamps c t0 u lo hi : cfg_ok c -> zlen (c_ts c) = stored_rows c -> (0 < u)%Q ->
+  obs_times_ok c t0 u ->
+  Forall2 (fun (b : bool) (t : Q) =>
+             b = true <-> (t0 + inject_Z (lo + Select.o_half (c_obs c)) * u <= t
+                           /\ t <= t0 + inject_Z (hi - Select.o_half (c_obs c)) * u)%Q)
+          (Select.timerange_mask (c_obs c) lo hi) (timestamps c (Select.init (c_obs c))).
+Proof.
+  intros Hc Hl Hu H. rewrite <- cache_is_timestamps by assumption.
+  unfold obs_times_ok in H. unfold Select.timerange_mask.
+  induction H as [|d t ds ts Ht _ IH]; cbn [map]; constructor; [|exact IH].
+  rewrite andb_true_iff, !Z.leb_le, (scaled_le t0 u _ _ Hu), (scaled_le t0 u (Select.d_ts d) _ Hu).
+  split; intros [A B]; split.
+  - now rewrite Ht.
+  - now rewrite Ht.
+  - now rewrite <- Ht.
+  - now rewrite <- Ht.
+Qed.
+
+Lemma ex_late_times_ok : obs_times_ok ex_late 101 (1 # 2)
+  /\ Select.timerange_mask (c_obs ex_late) 3 12 = [false; true; true; false].
+Proof.
+  split; [|reflexivity]. unfold obs_times_ok. vm_compute. repeat constructor.
+Qed.
